@@ -349,7 +349,8 @@ def to_bytes(s, charset="utf-8"):
 
 def render_file(spec, main_name, main_bytes):
     """one extra file of an include graph, from its description
-    {name, kind, includes:[href], types:[name], msgs:[{name,id}], k}"""
+    {name, kind, includes:[href], types:[name], msgs:[{name,id}], k}; a fragment holds its includes, then one
+    <types> block, then its messages, as top-level nodes"""
     kind = spec["kind"]
     if kind == "garbage":
         return to_bytes("\\x00\\x01\\xfe\\xff this is not XML <<<&&& \\x80")
@@ -365,6 +366,8 @@ def render_file(spec, main_name, main_bytes):
             s += "<types>\n" + "".join('    <type name=%s primitiveType="uint8"/>\n' % quoteattr(t) for t in spec["types"]) + "</types>\n"
         for m in spec["msgs"]:
             s += '<sbe:message xmlns:sbe="http://fixprotocol.io/2016/sbe" name=%s id=%s/>\n' % (quoteattr(m["name"]), quoteattr(str(m["id"])))
+        if not s:
+            s = "<types/>\n"       # a fragment that defines nothing (an empty FILE is kind "empty")
         return to_bytes(s)
     raise ValueError("unknown file kind " + kind)
 
@@ -378,6 +381,13 @@ def expand_files(specs):
             for i in range(1, sp["k"] + 1):
                 out.append({"name": "%s%d.xml" % (stem, i), "kind": "frag",
                             "includes": ["%s%d.xml" % (stem, i + 1)] if i < sp["k"] else [], "types": [], "msgs": [], "k": 0})
+        elif sp["kind"] == "chain2":       # the same chain, every file including a small valid fragment first
+            stem = sp["name"]
+            out.append({"name": stem + "leaf.xml", "kind": "frag", "includes": [], "types": [], "msgs": [], "k": 0})
+            for i in range(1, sp["k"] + 1):
+                out.append({"name": "%s%d.xml" % (stem, i), "kind": "frag",
+                            "includes": [stem + "leaf.xml"] + (["%s%d.xml" % (stem, i + 1)] if i < sp["k"] else []),
+                            "types": [], "msgs": [], "k": 0})
         else:
             out.append(sp)
     return out
